@@ -333,6 +333,25 @@ fn common_ops<B: VhostBackend + VhostKernBackend>(ctx: &mut Ctx, b: &B, mem: &Gu
             }
         }
     }
+    // the three rings in different regions: every assignment of (descriptor table, used ring,
+    // available ring) to the regions of the layout
+    let starts: Vec<u64> = mem.iter().map(|r| r.start_addr().0).collect();
+    for &d in &starts {
+        for &u in &starts {
+            for &a in &starts {
+                let cfg = VringConfigData { queue_max_size: 16, queue_size: 16, flags: 0, desc_table_addr: d + 0x100, used_ring_addr: u + 0x500, avail_ring_addr: a + 0x900, log_addr: None };
+                let r = set_addr(2, &cfg);
+                let recs = ioctl_capture::take();
+                let args = json!({"desc": d + 0x100, "used": u + 0x500, "avail": a + 0x900, "rings_in_different_regions": !(d == u && u == a)});
+                if r.is_ok() {
+                    let host = |gpa: u64| if translate { mem.get_host_address(GuestAddress(gpa)).map(|p| p as u64).unwrap_or(0) } else { gpa };
+                    ctx.check("set_vring_addr", args, recs, Some(("VHOST_SET_VRING_ADDR", Some(vring_addr(2, 0, host(d + 0x100), host(u + 0x500), host(a + 0x900), 0)))));
+                } else {
+                    ctx.ret_mismatch("set_vring_addr", args, "Err".into(), "Ok (every ring lies inside a region of the table)".into());
+                }
+            }
+        }
+    }
 }
 
 fn iotlb_expected(v2: bool, m: &VhostIotlbMsg) -> Vec<u8> {
@@ -652,7 +671,7 @@ pub fn run(rep: &mut Report) {
     rep.sample(json!({"op": "net:set_vring_num", "args": {"q": 1, "num": 256}, "expected_request": format!("{:#x}", req("VHOST_SET_VRING_NUM")), "expected_arg": vring_state(1, 256)}));
     rep.sample(json!({"op": "vdpa:set_group_asid", "args": {"group": 1, "asid": 2}, "expected_request": format!("{:#x}", req("VHOST_VDPA_SET_GROUP_ASID"))}));
     rep.sample(json!({"op": "vdpa:send_iotlb_msg_v2", "expected_len": lay("sizeof struct vhost_msg_v2")}));
-    rep.rule = "every trait operation of the kernel-vhost (via Net, Vsock, vDPA), vhost-net, vhost-vsock and vhost-vDPA backends on an intercepted dummy device x argument lattice x 3 guest memory layouts; an evaluation is non-trivial when it issued exactly one ioctl (or wrote one IOTLB message) whose number and bytes were compared with the gcc-computed UAPI reference".into();
+    rep.rule = "every trait operation of the kernel-vhost (via Net, Vsock, vDPA), vhost-net, vhost-vsock and vhost-vDPA backends on an intercepted dummy device x argument lattice x 3 guest memory layouts (ring addresses at the edges of every region, and every assignment of the three rings to the regions); an evaluation is non-trivial when it issued exactly one ioctl (or wrote one IOTLB message) whose number and bytes were compared with the gcc-computed UAPI reference".into();
     rep.assumptions.push("UAPI reference = request numbers, sizes and offsets printed by a C program compiled by gcc against /usr/include/linux/vhost.h at build time".into());
     rep.assumptions.push("the devices are dummies (memfd) behind ioctl/open64 interposition; kernel behaviour itself is not exercised".into());
 }
